@@ -1,0 +1,42 @@
+//go:build verif
+
+// Contracts for the deductive verifier in /verif (gvc). This file contains comments only:
+// it adds no code to the package, with or without the "verif" build tag.
+
+package schema
+
+//@ import "reflect"
+//@ import "path/filepath"
+
+// ---------------------------------------------------------------------------------------
+// C19: skipped change kinds
+
+//@ spec func GvcSameKind(a, b Change) bool { return reflect.TypeOf(a) == reflect.TypeOf(b) }
+//@ spec func GvcSkipped(o *DiffOptions, c Change) bool {
+//@ spec 	return (exists i int :: 0 <= i && i < len(o.SkipChanges) && GvcSameKind(c, o.SkipChanges[i]))
+//@ spec }
+
+//@ func (o *DiffOptions) Skipped(c Change) (r bool)
+//@   requires o != nil
+//@   ensures iff-listed: r == GvcSkipped(o, c)
+//@   loop 1 invariant 0 <= loopk && loopk <= len(loopx)
+//@   loop 1 invariant (forall j int :: 0 <= j && j < loopk ==> !GvcSameKind(c, o.SkipChanges[j]))
+
+//@ func (o *DiffOptions) AddOrSkip(changes Changes, cs ...Change) (r Changes)
+//@   requires o != nil
+//@   requires GvcBase(changes) == nil || (GvcBase(cs) != GvcBase(changes) && GvcBase(o.SkipChanges) != GvcBase(changes))
+//@   modifies elems(changes)
+//@   ensures prefix-kept: len(r) >= len(changes) && (forall i int :: 0 <= i && i < len(changes) ==> r[i] == old[Change](changes[i]))
+//@   ensures only-unskipped-from-cs: (forall j int :: len(changes) <= j && j < len(r) ==>
+//@           (exists i int :: 0 <= i && i < len(cs) && r[j] == old[Change](cs[i]) && !old[bool](GvcSkipped(o, cs[i]))))
+//@   ensures every-unskipped-added: (forall i int :: 0 <= i && i < len(cs) && !old[bool](GvcSkipped(o, cs[i])) ==>
+//@           (exists j int :: len(changes) <= j && j < len(r) && r[j] == old[Change](cs[i])))
+//@   loop 1 invariant 0 <= loopk && loopk <= len(cs) && len(changes) >= old(len(changes))
+//@   loop 1 invariant GvcFresh(changes) || GvcBase(changes) == old(GvcBase(changes))
+//@   loop 1 invariant GvcElemsFrame(old(changes))
+//@   loop 1 invariant GvcSameElems(cs) && GvcSameElems(o.SkipChanges)
+//@   loop 1 invariant (forall i int :: 0 <= i && i < old(len(changes)) ==> changes[i] == old[Change](changes[i]))
+//@   loop 1 invariant (forall j int :: old(len(changes)) <= j && j < len(changes) ==>
+//@           (exists i int :: 0 <= i && i < loopk && changes[j] == old[Change](cs[i]) && !old[bool](GvcSkipped(o, cs[i]))))
+//@   loop 1 invariant (forall i int :: 0 <= i && i < loopk && !old[bool](GvcSkipped(o, cs[i])) ==>
+//@           (exists j int :: old(len(changes)) <= j && j < len(changes) && changes[j] == old[Change](cs[i])))
